@@ -88,8 +88,8 @@ def run_program(exe):
     return rc, results, probes, se
 
 
-def job_single(fac, cname, cxx, opt):
-    src = G.facility_program(fac)
+def job_single(fac, cname, cxx, opt, holder="static"):
+    src = G.facility_program(fac, holder)
     obj, err = compile_tu(cxx, opt, src, "f-" + fac[0])
     if obj is None:
         return {"kind": "compile-error", "stderr": err[-2500:]}
@@ -136,6 +136,13 @@ def run(tier, seed, flavour="plain"):
     multi_disp = [[byname["construct-nonstandard-unit"], byname["print-in-unit"]],
                   [byname["convert-runtime-vector"], byname["construct-celsius"]],
                   [byname["value-in-unit"], byname["abbreviation"]]]
+    # every translation unit of this program includes every unit header: a table that stops being `inline` becomes a
+    # duplicate definition at link time, and any table is then initialised in three translation units
+    def with_all_units(f):
+        return (f[0], list(f[1]) + ["@allu.hpp"], f[2], f[3])
+    multi_all = [[with_all_units(byname["abbreviation"]), with_all_units(byname["print-standard"])],
+                 [with_all_units(byname["parse-enumeration"]), with_all_units(byname["all-unit-type-tables"])],
+                 [with_all_units(byname["consistent-unit"]), with_all_units(byname["related-unit-system"])]]
     perms = list(itertools.permutations([0, 1, 2, -1]))  # -1 is the TU with main()
     if tier == "quick":
         perms = [perms[0], perms[-1], perms[9]]
@@ -147,12 +154,18 @@ def run(tier, seed, flavour="plain"):
                 if tier == "quick" and fac[0].startswith("all-") and opt != "-O0":
                     continue
                 jobs.append(("single", fac[0], fac[3], cname, opt, (job_single, (fac, cname, cxx, opt))))
+                # the same object declared as an inline variable (partially ordered initialisation): one level in the quick tier
+                if not fac[0].startswith("all-") and (tier == "thorough" or opt == "-O2"):
+                    jobs.append(("single-inline", fac[0], fac[3], cname, opt, (job_single, (fac, cname, cxx, opt, "inline"))))
             for order in perms:
                 jobs.append(("multi", "multi-tu order=%s" % (list(order),), False, cname, opt,
                              (job_multi, (multi_plain, order, cname, cxx, opt, "mp"))))
                 if cname == "clang++":
                     jobs.append(("multi", "multi-tu-dispatch order=%s" % (list(order),), True, cname, opt,
                                  (job_multi, (multi_disp, order, cname, cxx, opt, "md"))))
+                if opt == "-O0" and (tier == "thorough" or order == perms[0]):
+                    jobs.append(("multi", "multi-tu-all-units order=%s" % (list(order),), False, cname, opt,
+                                 (job_multi, (multi_all, order, cname, cxx, opt, "ma"))))
     evals = 0
     distinct = set()
     samples = []
@@ -164,14 +177,14 @@ def run(tier, seed, flavour="plain"):
             r = fut.result()
             programs += 1
             facname = name.split(" ")[0]
-            key = "C19|%s|%sfacility=%s" % (cname, "dispatch|" if uses_dispatch else "", facname)
+            inline = "inline-variable|" if kind == "single-inline" else ""
+            key = "C19|%s|%s%sfacility=%s" % (cname, "dispatch|" if uses_dispatch else "", inline, facname)
             if r["kind"] != "ran":
                 V.add_violation(key + "|" + r["kind"], {"optimisation": opt, "program": name, "stderr": r["stderr"]})
                 continue
             for tu, pm in r["probes"].items():
                 probe_matrix.setdefault("%s %s" % (cname, opt), {}).update({"%s" % k: v for k, v in pm.items()})
-            expected = 3 if kind == "single" else None
-            if kind == "single" and len(r["results"]) != expected:
+            if kind.startswith("single") and len(r["results"]) != 3:
                 # died before or during main: attribute to the facility
                 V.add_violation(key, {"optimisation": opt, "program": name, "what": "terminated before main() finished",
                                       "rc": r["rc"], "stderr": r["stderr"], "results_seen": r["results"]})
@@ -186,7 +199,7 @@ def run(tier, seed, flavour="plain"):
                 evals += 1
                 distinct.add((cname, opt, name, res["facility"], res["T"]))
                 if not res["equal"]:
-                    k2 = "C19|%s|%sfacility=%s" % (cname, "dispatch|" if byname[res["facility"]][3] else "", res["facility"])
+                    k2 = "C19|%s|%s%sfacility=%s" % (cname, "dispatch|" if byname[res["facility"]][3] else "", inline, res["facility"])
                     V.add_violation(k2, {"optimisation": opt, "program": name, "numeric_type": res["T"],
                                          "during_static_init": res["static"], "inside_main": res["main"]})
                 if len(samples) < 6 and res["facility"] not in [s["facility"] for s in samples]:
